@@ -147,6 +147,12 @@ impl Property for C02 {
         let exp = &case.rendered.expected;
         let mut xot = Xot::new();
         let mut entry: &'static str = "?";
+        if wide && src.ratio(1, 4) {
+            // the manipulation option "text consolidation off" does not change what a text denotes:
+            // text, references and CDATA runs are still one text node
+            xot.set_text_consolidation(false);
+            ctx.label("parsed_with_text_consolidation_off");
+        }
         let verdict: Result<(), String> = (|| {
             let root = match variant {
                 0 => {
